@@ -59,7 +59,20 @@ class Tables:
             return 2
         return 3
 
+    probe = False
+    PROBES = {1: [b"\x1b", b"\xc3"], 2: [b"\x1b[", b"\x1bO", b"\xe2\x82"], 3: [b"\x1b[1", b"\x1b[2", b"\xf0\x9f\x98"],
+              4: [b"\x1b[1;", b"\x1b[15"], 5: [b"\x1b[1;1", b"\x1b[1;5"]}
+
     def get_key(self, seq, enc, mode, full):
+        if self.probe and len(seq) >= 2:
+            # the call before this one probed another, unfinished keypress of one chunk less and was abandoned
+            for pr in self.PROBES.get(len(seq) - 1, []):
+                if pr != bytes(seq[:len(seq) - 1]):
+                    try:
+                        self.events.get_key([pr[i:i + 1] for i in range(len(pr))], pyenc(enc), keynames=self.modes[mode], full=False)
+                    except Exception:  # noqa
+                        pass
+                    break
         try:
             r = self.events.get_key([seq[i:i + 1] for i in range(len(seq))], pyenc(enc), keynames=self.modes[mode], full=full)
         except Exception:  # noqa
